@@ -416,6 +416,16 @@ func genCase(t *rapid.T) Case {
 			d = model.Route{Segs: []model.Seg{seg("p"), {Elems: []model.Elem{{Bind: "b"}, {Lit: "."}, {Params: []model.Param{{Name: "b", IsRegex: true, Value: "[a-z]+", Blanks: 1}}}}}, seg("q")}}
 		}
 	case "inner-optional":
+		// sometimes start from a registered route, so that the tree already has
+		// the segment that is now marked optional, and continue differently
+		if p, pm, ok := pickPrefix(); ok && len(p.Segs) >= 2 && rapid.Bool().Draw(t, "fromprefix") {
+			cp := append([]model.Seg(nil), p.Segs...)
+			cp[len(cp)-1] = seg("zzt")
+			d, m = model.Route{Segs: cp}, pm
+			for i := range d.Segs {
+				d.Segs[i].Optional = false
+			}
+		}
 		if len(d.Segs) < 2 {
 			d.Segs = append(d.Segs, seg("tail"))
 		}
